@@ -218,7 +218,7 @@ pub fn run(ctx: &Ctx) {
     {
         use curve25519_dalek::traits::{VartimeMultiscalarMul, VartimePrecomputedMultiscalarMul};
         let pts = c03::pool(2, true);
-        for n in [0usize, 1, 2, 17, 200] {
+        for n in [0usize, 1, 2, 17, 95, 200, 400, 800] {
             let ps: Vec<EdwardsPoint> = (0..n).map(|i| pts[i % pts.len()].real).collect();
             let ss: Vec<Scalar> = (0..n).map(|i| Scalar::from(i as u64 + 1)).collect();
             drive(ctx, "traits.vartime_multiscalar_mul", json!({"kind": "traits", "n": n}), Some(true), || EdwardsPoint::vartime_multiscalar_mul(ss.iter(), ps.iter()).compress().0.len() == 32);
